@@ -25,6 +25,14 @@ def TauStarCorrect : Prop :=
 theorem tau_star_correct : TauStarCorrect :=
   fun P hp M _ w ρ => tauStar_correct P hp M w ρ
 
+/-- **C01 with no hypothesis at all** (since the repair of the global-index overflow the fresh head
+    variables are fresh for every program, `C16.fresh_globals_always_fresh`): for EVERY program, every HT
+    interpretation, world and assignment, the interpretation satisfies every formula of `tau*(P)` iff it
+    satisfies every rule of `P` in the reference semantics. -/
+theorem tau_star_correct_every_program (P : Program) (M : HTI) (w : World) (ρ : Asg) :
+    (∀ F ∈ tauStar P, ht M F w ρ) ↔ progSat M w P :=
+  tauStar_correct P rfl M w ρ
+
 /-- Stable models (with input predicates) are exactly the equilibrium models of the tau* theory:
     the reference notion `Stable` can be read entirely through `tauStar`. -/
 theorem stable_iff_equilibrium (P : Program) (hp : globalsPanic P = false) (ins : List Pred)
